@@ -64,7 +64,7 @@ func (c10) Gen(r *core.Rng, tier string, idx int) *core.Trace {
 			t.Cfg["bs"] = core.PickOf[int64](r, 1024, 2048, 4096)
 		}
 	case kind[:3] == "iso":
-		t.Cfg["bs"] = core.PickOf[int64](r, 2048, 2048, 2048, 2048, 2048, 2048, 2048, 2048, 4096, 8192)
+		t.Cfg["bs"] = core.PickOf[int64](r, 2048, 2048, 4096, 8192)
 	case kind[:3] == "squ":
 		t.Cfg["bs"] = core.PickOf[int64](r, 4096, 8192, 131072)
 		t.Cfg["sqcomp"] = int64(r.Intn(4))
